@@ -662,7 +662,7 @@ fn main() {
     let tier = arg(&args, "--tier").or_else(|| std::env::var("VERIF_TIER").ok()).unwrap_or_else(|| "quick".to_string());
     let thorough = tier == "thorough";
     let seed: u64 = arg(&args, "--seed").or_else(|| std::env::var("VERIF_SEED").ok()).and_then(|s| s.trim().parse().ok()).unwrap_or(20261002);
-    let values: u64 = arg(&args, "--values").and_then(|s| s.parse().ok()).unwrap_or(if thorough { 60_000 } else { 1_000 });
+    let values: u64 = arg(&args, "--values").and_then(|s| s.parse().ok()).unwrap_or(if thorough { 300_000 } else { 1_000 });
     let threads: u64 = arg(&args, "--threads").and_then(|s| s.parse().ok()).unwrap_or_else(|| std::thread::available_parallelism().map(|n| n.get() as u64).unwrap_or(4));
     let evidence_path = arg(&args, "--evidence").unwrap_or_else(|| format!("{verif_dir}/evidence/C18.json"));
     println!("C18 sink simulation: seed={seed} tier={tier} values={values} threads={threads} types={}", TYPES.len());
